@@ -7,7 +7,7 @@ EXPLANATION = ('C20: util.pad / subarray / window / boundary / rebin / centroid,
                'segmented.* on symbolic contents, symbolic integer shifts (split by the explorer), symbolic shape parameters; the hexagonal-segment '
                'geometry is checked on a symbolic real sample position through the real hexagon() and hex_to_rc() code.')
 BOUNDS = {
-    'quick': 'pad: every (input, target) shape pair in 1..4 per axis for 2-D arrays and 1..3 for cubes (depth 2), round trips; subarray: arrays <= 4x4, windows <= array, unbounded symbolic shift; '
+    'quick': 'pad: every (input, target) shape pair in 1..4 per axis for 2-D arrays and 1..3 for cubes (depth 2), round trips, complex planes and cubes for shapes 1..2 (seven dtypes concretely); subarray: arrays <= 4x4, windows <= array, unbounded symbolic shift; '
              'boundary family: every support of arrays <= 3x3 (sampled 160) with symbolic positive values; rebin factors 2, 3; shapes on arrays 3x3, 2x3, 3x4 (value bounds at 4 probe samples, translation and symmetries at every sample) with symbolic radius/size/shift; hex segments rings 1..2 (all pairs for one ring, adjacent pairs for two), symbolic radius, gap, position',
     'thorough': 'pad shapes up to 5 (cubes 4); all supports of 3x3, sampled 4x4; rings up to 3',
 }
